@@ -672,6 +672,15 @@ def run_schedule(b, on_capture=None):
                 b.failrun_outcome = 'accepted'
             except Exception as ex:
                 b.failrun_outcome = type(ex).__name__
+        elif o == 'swapsolver':
+            # two Solver objects over the same powertrain, used alternately: the history is the powertrain's, whichever solver
+            # advances it
+            # (not on self-locking powertrains: whether the powertrain is currently held is remembered by the Solver object, so a
+            # second solver starts "not held" -- observed on the unchanged tree, appendix B; no property speaks about two solvers)
+            if not b.pt.self_locking:
+                other = getattr(b, 'other_solver', None) or g().Solver(powertrain=b.pt)
+                b.other_solver, b.solver = b.solver, other
+                b.solver_swaps = getattr(b, 'solver_swaps', 0) + 1
         elif o == 'twin':
             # a second Powertrain object is assembled from the SAME motor while the first one holds a history (the user wants a
             # second handle, e.g. for another solver): constructing it must not disturb what is recorded
